@@ -72,18 +72,21 @@ type Conn struct {
 	w *World
 	N int // 1-based ordinal
 
-	Out             []byte // bytes accepted from the client
-	fedLimit        int    // bytes beyond this offset never reach the broker (-1 = no limit)
-	wfaults         []WFault
-	wdl, rdl        bool
-	rdlProg         int
-	wdlProg         int
-	closed          bool
-	closeN          int
-	broken          bool // harness broke it
-	wErr            error
-	failedW         bool // a Write returned an error
-	WritesAfterFail int
+	Out      []byte // bytes accepted from the client
+	fedLimit int    // bytes beyond this offset never reach the broker (-1 = no limit)
+	wfaults  []WFault
+	wdl, rdl bool
+	// a deadline which has passed stays passed until it is set anew: every
+	// further Read (Write) fails at once, as on a real connection
+	rdlExpired, wdlExpired bool
+	rdlProg                int
+	wdlProg                int
+	closed                 bool
+	closeN                 int
+	broken                 bool // harness broke it
+	wErr                   error
+	failedW                bool // a Write returned an error
+	WritesAfterFail        int
 
 	in       []byte // undelivered inbound bytes
 	InOff    int    // inbound bytes delivered
@@ -186,10 +189,16 @@ func (c *Conn) Read(p []byte) (int, error) {
 			w.log(Event{Kind: EvReadErr, Conn: c.N, Err: err})
 			return 0, err
 		}
+		if c.rdlExpired && c.rdl {
+			err := &timeoutError{"read"}
+			w.log(Event{Kind: EvReadErr, Conn: c.N, Err: err, Str: "the read deadline passed earlier and was not set anew"})
+			return 0, err
+		}
 		if c.expireNow {
 			c.expireNow = false
 			if c.rdl {
 				err := &timeoutError{"read"}
+				c.rdlExpired = true
 				w.log(Event{Kind: EvReadErr, Conn: c.N, Err: err, Str: "stall"})
 				return 0, err
 			}
@@ -237,6 +246,7 @@ func (c *Conn) Read(p []byte) (int, error) {
 			if f.Kind == RExpiry || f.Kind == RExpiryProgress {
 				err := &timeoutError{"read"}
 				c.rdlProg = 0
+				c.rdlExpired = true
 				w.log(Event{Kind: EvReadErr, Conn: c.N, Err: err, N: c.InOff})
 				return 0, err
 			}
@@ -326,6 +336,9 @@ func (c *Conn) Write(p []byte) (n int, err error) {
 		if c.wErr != nil {
 			return n, c.wErr
 		}
+		if c.wdlExpired && c.wdl {
+			return n, &timeoutError{"write"}
+		}
 		rest := p[n:]
 		// next fault at or after the current offset
 		fi := -1
@@ -352,6 +365,7 @@ func (c *Conn) Write(p []byte) (n int, err error) {
 			if f.Kind == WTimeoutProgress && c.wdlProg == 0 {
 				continue // void: no progress since the deadline was set
 			}
+			c.wdlExpired = true
 			return n, &timeoutError{"write"}
 		case WReset:
 			c.wfaults = append(c.wfaults[:fi], c.wfaults[fi+1:]...)
@@ -711,6 +725,7 @@ func (c *Conn) SetReadDeadline(t time.Time) error {
 	}
 	c.rdl = !t.IsZero()
 	c.rdlProg = 0
+	c.rdlExpired = false
 	n := 0
 	if c.rdl {
 		n = 1
@@ -729,6 +744,7 @@ func (c *Conn) SetWriteDeadline(t time.Time) error {
 	}
 	c.wdl = !t.IsZero()
 	c.wdlProg = 0
+	c.wdlExpired = false
 	n := 0
 	if c.wdl {
 		n = 1
